@@ -27,7 +27,7 @@ Proof.
     try apply oN_eq_dec; try apply obool_eq_dec; try apply ostr_eq_dec; try apply bool_dec;
     try apply ikind_eq_dec; try apply ubound_eq_dec; try apply lbound_eq_dec;
     try (apply list_eq_dec; apply Z.eq_dec).
-  decide equality.
+  all: decide equality.
 Defined.
 Definition constraint_eq_dec : forall a b : constraint, {a = b} + {a <> b}.
 Proof. decide equality; [decide equality; apply tyc_eq_dec | apply bool_dec]. Defined.
